@@ -79,6 +79,7 @@ CONFIGS = {
     'pausestop': ({'c1': [op(A, job=1), op(A, job=2)], 'ctl': [op(P), op(S), op('Nop'), op(RS), op(WU)]}, {}, 'thorough'),
     'rsresume': ({'c1': [op(A, job=1), op(A, job=2)], 'ctl': [op(P), op(RS), op(WU)], 'x': [op(R)]}, {}, 'thorough'),
     'pausenop': ({'c1': [op(A, job=1), op(A, job=2)], 'ctl': [op(PW), op('Nop'), op(R), op(WU)]}, {}, 'thorough'),
+    'rsres': ({'c1': [op(A, job=1)], 'ctl': [op(RS), op(WU)], 'y': [op(R)]}, {'Jobs': [1]}, 'thorough'),
     'stopwuf': ({'c1': [op(A, job=1), op(A, job=2)], 'ctl': [op(S)], 'x': [op(WU), op(WU)]}, {}, 'thorough'),
     'ratio': ({'c1': [op(A, job=1), op(A, job=2), op(A, job=3), op(WU)]}, {'Jobs': [1, 2, 3], 'Nodes': [1, 2, 3], 'PGSeq': ['pg1', 'pg2', 'pg3'], 'Conc0': 3, 'Ratio': 100}, 'thorough'),
 }
